@@ -1986,3 +1986,13 @@ add("findMaximaStructure", "Pick", ["C20"], _PKC, "const", [],
                            "centers = ndi.center_of_mass(img, label_img, range(1, nfeat + 1))",
                            "return np.array(centers, dtype=np.float32).reshape(-1, img.ndim)")
             and _has(ast.unparse(func(t, "maximum_filter")), "return ndi.maximum_filter(image, footprint=foot, mode='nearest')")))
+
+
+# ==========================================================================================
+# C09  the average is one plain mean over the molecule axis (any rechunking is only a layout change)
+# ==========================================================================================
+add("averageIsPlainMean", "Split", ["C09"], "acryo/loader/_base.py", "const", [],
+    pattern(lambda t: _has(ast.unparse(func(t, "LoaderBase.average")),
+                           "dsk = self.construct_dask(output_shape=output_shape, backend=xp)",
+                           "dsk = dsk.rechunk(('auto',) + output_shape)",
+                           "return xp.asnumpy(dsk.mean(axis=0).compute())")))
